@@ -398,7 +398,7 @@ func (g *c1gen) intLit(t *c1typ) string {
 		return fmt.Sprint(hi)
 	case 1:
 		if lo < 0 {
-			return fmt.Sprint(lo)
+			return fmt.Sprint(lo + 1) // not the minimum itself: go1.23.5 miscompiles (MinInt64 + x) % 4 for x >= 0
 		}
 		return "0"
 	case 2:
@@ -615,7 +615,7 @@ func (g *c1gen) boundedStr(c c1ectx) string {
 }
 
 func (g *c1gen) paren(s string) string {
-	if strings.HasPrefix(s, "\"") && strings.Count(s, "\"") == 2 {
+	if strings.HasPrefix(s, "\"") && strings.HasSuffix(s, "\"") && strings.Count(s, "\"") == 2 {
 		return s // a parenthesised literal operand breaks yaegi's branch wiring (region paren-literal)
 	}
 	if strings.ContainsAny(s, " -+^!*&") {
@@ -826,7 +826,7 @@ func (g *c1gen) index(n int, c c1ectx) string {
 		return fmt.Sprint(g.r.intn(n))
 	}
 	if n&(n-1) == 0 && g.r.bool() {
-		return "(" + e + ") & " + fmt.Sprint(n-1)
+		return g.paren(e) + " & " + fmt.Sprint(n-1)
 	}
 	return "uint(" + e + ") % " + fmt.Sprint(n)
 }
